@@ -6,7 +6,11 @@ use crate::{
         INDICES_CONVERTER,
     },
     builtins::DefaultFunction,
-    machine::{cost_model::ExBudget, runtime::Compressable, value::from_pallas_bigint},
+    machine::{
+        cost_model::ExBudget,
+        runtime::{Compressable, INTEGER_TO_BYTE_STRING_MAXIMUM_OUTPUT_LENGTH},
+        value::from_pallas_bigint,
+    },
 };
 use blst::{blst_p1, blst_p2};
 use indexmap::IndexMap;
@@ -614,7 +618,7 @@ impl DefaultFunction {
 
             DefaultFunction::ReplicateByte => {
                 if let (Term::Constant(c1), Term::Constant(c2)) = (&arg_stack[0], &arg_stack[1]) {
-                    matches!(c1.as_ref(), Constant::Integer(i) if i >= &0.into())
+                    matches!(c1.as_ref(), Constant::Integer(i) if i >= &0.into() && i <= &INTEGER_TO_BYTE_STRING_MAXIMUM_OUTPUT_LENGTH.into())
                         && matches!(c2.as_ref(), Constant::Integer(i) if i >= &0.into() && i <= &255.into() )
                 } else {
                     false
